@@ -22,6 +22,11 @@ the functional tree; the harness verifies them on every dumped state.
   `short` = "the loop's `x` is the root of this subtree and is black".
   Where the C code would read the colour of a missing sibling (NULL), the
   model returns `none` (the driver prints `STOP segv`).
+  One simplification: after the far-nephew case the C code sets `x = t->root`
+  and the final `*BN_COLOR(x) = B` paints the root of the whole tree; the model
+  does not repaint it.  On every tree that satisfies the red-black rules the
+  root is black at that point (PropsC02.lean: `rbErase_inv`), so model and code
+  agree on all reachable states, which is what the correspondence check compares.
 * `Map…` — src/map.c on top of the red-black tree with the malloc result as a
   parameter and an event log of allocations, frees and clear callbacks.
 -/
